@@ -53,6 +53,10 @@ class Exec(Interp):
             if fv.fi is not None:
                 recv = fv.recv
                 return self.call_func(fv.fi, recv, args, kw, n)
+            if isinstance(fv.node, (ast.FunctionDef, ast.AsyncFunctionDef)) and env.get(fv.node.name) is fv:
+                # a nested function called from its defining scope: free variables are the caller's
+                # current bindings (the interpreter copies environments at branches)
+                fv = VFun(fv.node, env, None)
             return self.call_closure(fv, args, kw, n)
         if isinstance(fv, VCls):
             return self.construct(fv.cls, args, kw, n)
@@ -575,7 +579,17 @@ class Exec(Interp):
             self.bind_params(fv.node.args, None, args, kw, env, skip_first=False)
             if isinstance(fv.node, ast.Lambda):
                 return self.ev(fv.node.body, env)
-            return self.run_body(fv.node, env)
+            r = self.run_body(fv.node, env)
+            # mutations of captured containers (modelled as rebinding) flow back to the defining scope
+            fa = fv.node.args
+            local = {a.arg for a in list(fa.posonlyargs) + list(fa.args) + list(fa.kwonlyargs)}
+            for sub in ast.walk(fv.node):
+                if isinstance(sub, ast.Name) and isinstance(sub.ctx, ast.Store):
+                    local.add(sub.id)
+            for k, v in env.items():
+                if k not in local and k in fv.env and fv.env[k] is not v and not k.startswith("__"):
+                    fv.env[k] = self.join_val(fv.env[k], v) if isinstance(fv.env[k], (VTuple,)) and not fv.env[k].items else self.join_val(fv.env[k], v)
+            return r
         finally:
             self.stack.pop()
 
